@@ -1,10 +1,10 @@
 """Per-property plans: which specification configs are explored and how the real code is bound to them."""
-import json, os, subprocess, time
+import json, os, re, subprocess, time
 from common import Broken
 
 VERIF = os.path.dirname(os.path.dirname(os.path.abspath(__file__)))
 FINDINGS = os.path.join(VERIF, 'known_findings.json')
-REPLAYS = os.path.join(VERIF, 'replays')
+REPLAYS = os.path.join(os.environ.get('VERIF_OUT', VERIF), 'replays')
 
 
 def _set(xs):
@@ -100,6 +100,112 @@ def A_merge(name, mode, doclevel, patchlevel, maxops, parts=1, part=0, **kw):
         consts = {'Mode': '"%s"' % mode, 'DocLevel': doclevel, 'PatchLevel': patchlevel, 'MaxOps': maxops,
                   'EmitOn': 'TRUE', 'Part': part if part is not None else ctx.seed % parts, 'Parts': parts}
         run_A(ctx, 'MCMerge', name, consts, invariants=M_INV, properties=M_PROPS, spec='MSpec', **kw)
+    return run
+
+
+def _tlc_last_state(text):
+    """(l, bad) of the last state of a TLC error trace."""
+    ls = re.findall(r'^/\\ l = (\d+)', text, re.M)
+    bads = re.findall(r'^/\\ bad = "(.*)"', text, re.M)
+    return (int(ls[-1]) if ls else None), (bads[-1] if bads else None)
+
+
+def validate_trace(ctx, name, trace_path, index, mode, legacy):
+    """Run TLC on one ndjson file against TraceApi; report every rejected trace (up to 20) as a violation."""
+    spec = ctx.specdir()
+    events = [l for l in open(trace_path).read().split('\n') if l]
+    traces = index['traces']
+    offset = 0          # number of lines of the original file already consumed
+    reported = 0
+    states = 0
+    rounds = 0
+    while offset < len(events) and rounds < 25:
+        rounds += 1
+        part = 'trace_%s_%d.ndjson' % (name, rounds)
+        open(os.path.join(spec, part), 'w').write('\n'.join(events[offset:]) + '\n')
+        cfg = ctx.write_cfg('trace_%s_%d' % (name, rounds), 'TSpec', {'TraceFile': '"%s"' % part, 'Mode': '"%s"' % mode},
+                            invariants=('NoMismatch',), postcondition='Accepted')
+        p = subprocess.run(['timeout', '3000'] + ctx.tlc_cmd('TraceApi', cfg, workers=1), cwd=spec, env=ctx.env,
+                           capture_output=True, text=True)
+        out = p.stdout + p.stderr
+        m = re.search(r'(\d+) states generated, (\d+) distinct states found', out)
+        if m:
+            states += int(m.group(2))
+        if 'Invariant NoMismatch is violated' in out:
+            l, bad = _tlc_last_state(out)
+            if l is None:
+                raise Broken('stage %s: cannot read the rejected line from TLC output:\n%s' % (name, out[-1500:]))
+            line = offset + l - 1                      # 1-based line of the original file whose event is rejected
+            tr = next((t for t in traces if t['first'] <= line <= t['last']), None)
+            if tr is None:
+                raise Broken('stage %s: rejected line %d belongs to no trace' % (name, line))
+            report_trace_violation(ctx, name, tr, bad, events[tr['first'] - 1:tr['last']], line - tr['first'] + 1, legacy)
+            reported += 1
+            offset = tr['last']                        # continue with the next trace
+            continue
+        if re.search(r'^Error:|java\.lang\.|Parsing or semantic analysis failed', out, re.M):
+            if 'Postcondition Accepted' in out and 'is false' in out:
+                raise Broken('stage %s: the trace was not consumed to its end (no event matched):\n%s' % (name, out[-1500:]))
+            raise Broken('stage %s: TLC failed on the trace specification:\n%s' % (name, out[-2000:]))
+        break
+    return states, reported
+
+
+def report_trace_violation(ctx, name, tr, bad, lines, at, legacy):
+    """A trace recorded from the real code is not a behaviour of the specification."""
+    sig = {'fam': 'trace-' + tr['fam'], 'kind': bad or '', 'lab': '', 'lastop': ''}
+    for f in json.load(open(FINDINGS))['findings']:
+        if f.get('status') == 'open' and f.get('property') == ctx.prop and \
+                all(re.fullmatch(v, sig.get(k, '')) for k, v in f.get('match', {}).items()):
+            ctx.known[f['id']] = ctx.known.get(f['id'], 0) + 1
+            print('KNOWN-FINDING: property=%s %s: %s' % (ctx.prop, f['id'], f['what']))
+            return
+    os.makedirs(REPLAYS, exist_ok=True)
+    import hashlib
+    body = {'property': ctx.prop, 'kind': 'trace-rejected', 'detail': bad, 'sig': sig,
+            'case': dict(tr, package='v4' if legacy else 'v5', rejected_event=at, events=[json.loads(x) for x in lines])}
+    h = hashlib.sha1(json.dumps(body, sort_keys=True).encode()).hexdigest()[:12]
+    path = os.path.join(REPLAYS, '%s-%s.json' % (ctx.prop, h))
+    json.dump(body, open(path, 'w'), indent=1)
+    print('VIOLATION property=%s replay=%s' % (ctx.prop, path))
+    print('  kind=trace-rejected (%s, event %d of its trace): %s' % (tr['fam'], at, bad))
+    ctx.violations += 1
+    vk = ctx.cov.setdefault('violation_kinds', {})
+    vk['trace:' + (bad or '')] = vk.get('trace:' + (bad or ''), 0) + 1
+
+
+def B_trace(name, fam, n, maxops=10, mode='value', legacy=False, plain=False, case=None):
+    """Direction B: record traces from the real code, let TLC validate them against TraceApi."""
+    def run(ctx):
+        t0 = time.time()
+        rec = ctx.build('record', legacy=legacy)
+        spec = ctx.specdir()
+        trace = os.path.join(ctx.scratch, 'rec_%s.ndjson' % name)
+        idx = os.path.join(ctx.scratch, 'rec_%s.index.json' % name)
+        args = [rec, '-fam', fam, '-n', str(n), '-seed', str(ctx.seed), '-out', trace, '-index', idx, '-maxops', str(maxops)]
+        if plain:
+            args.append('-plain')
+        if case:
+            args += ['-case', case]
+        p = subprocess.run(args, env=ctx.env, capture_output=True, text=True)
+        if p.returncode != 0:
+            raise Broken('stage %s: the recorder failed: %s' % (name, (p.stderr or p.stdout)[-1500:]))
+        index = json.load(open(idx))
+        states, reported = validate_trace(ctx, name, trace, index, mode, legacy)
+        ctx.exhaustive = False
+        ctx.cov['states'] += states
+        ctx.cov['transitions'] += index['lines']
+        ctx.cov['traces_validated_against_impl'] += len(index['traces'])
+        ctx.cov['evaluations'] += index['lines']
+        ctx.cov['distinct_nontrivial'] += len(index['traces'])
+        ctx.cov['labels']['TraceEvents_' + fam] = ctx.cov['labels'].get('TraceEvents_' + fam, 0) + index['lines']
+        if index['traces'] and len(ctx.cov['samples']) < 8:
+            t = index['traces'][len(index['traces']) // 2]
+            ctx.cov['samples'].append({'recorded_trace': {k: v for k, v in t.items() if k not in ('first', 'last')}})
+        ctx.cov['stages'].append({'stage': name, 'module': 'TraceApi', 'package': 'legacy root package (staged)' if legacy else 'v5',
+                                  'direction': 'B (traces recorded from the code validated by TLC)', 'family': fam,
+                                  'traces': len(index['traces']), 'events': index['lines'], 'rejected_traces': reported,
+                                  'comparison': mode, 'tlc_states': states, 'wall_s': round(time.time() - t0, 1)})
     return run
 
 
@@ -267,7 +373,7 @@ def A_equal(name, level, triples=True, **kw):
 
 def A_decode(name, pairs, **kw):
     def run(ctx):
-        run_A(ctx, 'MCDecode', name, {'EmitOn': 'TRUE', 'Pairs': pairs}, invariants=('BaseAccepted',), spec='DSpec', **kw)
+        run_A(ctx, 'MCDecode', name, {'EmitOn': 'TRUE', 'Pairs': pairs, 'MaxNest': 10000}, invariants=('BaseAccepted',), spec='DSpec', **kw)
     return run
 
 
@@ -545,3 +651,40 @@ def replay_file(ctx, plan, path):
     p = subprocess.run(rargs, input=json.dumps(line) + '\n', capture_output=True, text=True, env=ctx.env)
     print(p.stdout)
     return 1 if 'VIOLATION' in p.stdout else 0
+
+
+# ---------------------------------------------------------------------------------------------
+# direction B stages: traces recorded from the real code, validated by TLC against spec/TraceApi.tla
+# ---------------------------------------------------------------------------------------------
+def _addB(prop, quick, thorough, note):
+    PLANS[prop]['quick'] = list(PLANS[prop]['quick']) + quick
+    PLANS[prop]['thorough'] = list(PLANS[prop]['thorough']) + thorough
+    PLANS[prop]['rule'] += '; direction B: ' + note
+    PLANS[prop]['assumptions'] = list(PLANS[prop]['assumptions']) + [
+        'direction B samples a rich input domain with a seeded generator (VERIF_SEED); it is not exhaustive']
+
+
+_TB = ('%s recorded from the real code on seeded random inputs (documents to depth 4 with member names such as "", "a/b", "m~n", "0", "-", '
+       'non-ASCII and HTML-sensitive names, literals such as 1e400, -0, 0.10, 23-digit integers; %s) are validated by TLC against '
+       'spec/TraceApi.tla, which judges every event with the operators of the reference modules')
+_addB('C01', [B_trace('tb', 'patch', 600)], [B_trace('tb', 'patch', 12000, maxops=14)],
+      _TB % ('patch traces (one event per operation, prefix by prefix)', 'patches of 1-10 operations with pointers drawn from the current document and near-misses, all option combinations'))
+_addB('C05', [B_trace('tb', 'patch', 500, mode='ordered'), B_trace('tbm', 'merge', 400, mode='ordered')],
+      [B_trace('tb', 'patch', 10000, mode='ordered', maxops=14), B_trace('tbm', 'merge', 6000, mode='ordered')],
+      _TB % ('patch and merge traces', 'compared as ORDERED literal-exact values; merge results by the order predicate MergeOrderOK'))
+_addB('C08', [B_trace('tb', 'patch', 600)], [B_trace('tb', 'patch', 12000, maxops=14)],
+      _TB % ('patch traces', 'the error class of every failing operation is validated (errors.Is / errors.As projections in the event)'))
+_addB('C12', [B_trace('tb', 'patch', 500)], [B_trace('tb', 'patch', 10000)],
+      _TB % ('patch traces', 'a quarter of them under a random AccumulatedCopySizeLimit of 1..40, white-space-only re-spelling'))
+_addB('C13', [B_trace('tb', 'patch', 500)], [B_trace('tb', 'patch', 10000)], _TB % ('patch traces', 'a quarter with AllowMissingPathOnRemove'))
+_addB('C14', [B_trace('tb', 'patch', 500)], [B_trace('tb', 'patch', 10000)], _TB % ('patch traces', 'a quarter with EnsurePathExistsOnAdd'))
+_addB('C02', [B_trace('tb', 'merge', 800)], [B_trace('tb', 'merge', 15000)], _TB % ('MergePatch calls', 'patches derived from the document: members nulled, recursed into, retyped, added'))
+_addB('C03', [B_trace('tb', 'create', 800)], [B_trace('tb', 'create', 15000)],
+      _TB % ('CreateMergePatch calls (with the library\'s own MergePatch(A, P))', 'B obtained by editing A; the produced patch is judged by IsMinimalPatch and the round trip by MP'))
+_addB('C07', [B_trace('tb', 'compose', 500)], [B_trace('tb', 'compose', 8000)],
+      _TB % ('MergeMergePatches calls', 'the combined patch is judged by Compose and by the law on four documents, with the reference MP and with the library\'s MergePatch'))
+_addB('C06', [B_trace('tb', 'equal', 800)], [B_trace('tb', 'equal', 15000)], _TB % ('Equal calls', 'one side obtained by mutating the other, two independent spellings'))
+_addB('C18', [B_trace('tbL', 'patch', 500, legacy=True)], [B_trace('tbL', 'patch', 8000, legacy=True)],
+      _TB % ('patch traces of the staged legacy package', 'note: the trace specification applies the v5 dialect; see C18 stage notes'))
+_addB('C04', [B_trace('tb', 'patch', 400), B_trace('tbx', 'mix', 600)], [B_trace('tb', 'patch', 8000), B_trace('tbx', 'mix', 8000)],
+      _TB % ('patch, merge, create, compose and equal traces', 'every call under recover(): a panic is recorded in the event and rejected'))
